@@ -39,7 +39,7 @@ SOLVER_INV = ["Refines", "Complete", "Terminates", "FreshIsFresh", "NodesAcyclic
 SOLVER_PROPS = ["CutCommits", "NoRetryLeftOfCut", "CutIsLocal"]
 SOLVER_CONST = {"Depth": 12, "ReAsks": 2, "MaxSteps": 4000, "Bug_ClauseLoopIgnoresCut": "FALSE",
                 "Bug_OrTailAfterCut": "FALSE", "Bug_NotStaysArmed": "FALSE"}
-for _s in ("andor", "cut", "not", "print", "lists", "alias", "time"):
+for _s in ("andor", "cut", "not", "print", "lists", "alias", "time", "anon"):
     JOBS["solver-" + _s] = dict(module="MC_Solver", constants=dict(SOLVER_CONST, Slice=_s), subst=BIP_SUBST,
                                 invariants=SOLVER_INV, properties=SOLVER_PROPS, constraint="WithinBudget",
                                 timeout={"quick": 1200, "thorough": 3600})
@@ -107,8 +107,8 @@ PROPS = {
                 rule="print / print_list / nl placed left and right of multi-answer, failing and negated goals; real stdout between successive answers is compared with the reference search's text; "
                      "plus single print / print_list / nl calls over 8 format strings (0-3 markers at every position) x argument tuples (atoms, integers, bound variables, chains) and concatenation without markers",
                 assumptions=["only atoms and small integers are printed (given literally or bound); format strings with k markers have k arguments or none"]),
-    "C05": dict(jobs=["solver-not", "solver-cut", "solver-andor", "solver-print", "solver-alias", "solver-lists", "solver-time", "trace-solver"], level="model_checking",
-                rule="every program/query of the solver slices, asked 2 more times after the first 'no more' (answers and output)",
+    "C05": dict(jobs=["solver-not", "solver-cut", "solver-andor", "solver-print", "solver-alias", "solver-lists", "solver-time", "trace-solver", "session"], level="model_checking",
+                rule="every program/query of the solver slices, asked 2 more times after the first 'no more' (answers and output); (session: every query of a session history that had reported 'no more' is asked again at the END of the history -- after the answers, re-asks and timeouts of the later queries, which may have left the stop flag set -- through solve() and through next_solution(): 'No more.' / none, nothing written)",
                 assumptions=[]),
     "C11": dict(jobs=["solver-andor", "solver-alias", "solver-lists", "solver-print", "solver-not", "solver-cut"], level="model_checking",
                 rule="every program of the solver slices under two clause-wise renamings generated by the specification (pool 1 reuses the QUERY's variable names in every clause, all clauses sharing names; pool 2 swaps each clause's own names); AlphaInvariant is checked on the reference semantics and every variant is replayed",
@@ -144,8 +144,8 @@ PROPS = {
     "C08": dict(jobs=["unify-sess", "unify-plain", "solver-alias", "trace-unify"], level="model_checking",
                 rule="all sessions of 2-3 unifications over variables/terms of the session universe plus all single unifications under aliasing priors; after every real unify() the returned substitution set is walked with a visited set",
                 assumptions=UNIFY_ASSUME),
-    "C09": dict(jobs=["unify-plain", "unify-sess", "unify-laws", "trace-unify"], level="model_checking",
-                rule="the cases of C06/C08 that contain $_ (argument, list element, list tail, nested); non-trivial as for C06",
+    "C09": dict(jobs=["unify-plain", "unify-sess", "unify-laws", "trace-unify", "solver-anon"], level="model_checking",
+                rule="(solver-anon: $_ in the search itself -- facts whose heads have $_ against goals with constants, goals with $_ against heads with constants, variables and $_, as queries and in rule bodies before and after goals that bind: the answers of the reference search) the cases of C06/C08 that contain $_ (argument, list element, list tail, nested); non-trivial as for C06",
                 assumptions=UNIFY_ASSUME),
     "C14": dict(jobs=["bip-cmp", "syntax-goals", "trace-bip"], level="model_checking",
                 rule="every comparison predicate x every ordered pair of operands (integers incl. -2^63 and 2^62, floats incl. -0.0 and fractions, ASCII/space/non-ASCII atoms, non-constants), literally and through variable chains; distinct by (predicate, operands, prior)",
